@@ -76,5 +76,7 @@ def gates(c, tier):
         "label:pv:unpainted": 1000,
         "label:in:trailing-gap": 100,
         "label:in:leading-gap": 100,
+        "label:in:via-tpf-text": 500,
+        "label:in:via-agp-text": 500,
     }
     return [f"{k}>={v} (got {c.get(k, 0)})" for k, v in need.items() if c.get(k, 0) < v]
